@@ -85,6 +85,11 @@ def cases(tier, rng):
         cid = "g%d_%s_%d.%d_%s_%s_%s_%s" % (k, p, v[0], v[1], m.decode(), s, "none" if i is None else str(len(i)), f)
         out.append("%s sock %s / attach a X raw=%s%s / %s / dropped a" % (cid, l, W.tok(raw), idopt, PROBE[l]))
         k += 1
+    # two peers whose READY carries a present-but-empty Identity (libzmq's default): both admitted, each under its own fresh identity
+    for l in LOCALS:
+        good = [p for p in NAMES if (l, p) in COMPAT][0]
+        out.append("u%d sock %s / attach a %s id=- / attach b %s id=- / dropped a / dropped b" % (k, l, good, good))
+        k += 1
     # admission is independent of segmentation (C02 hand-over) and needs no EOF
     for l in LOCALS:
         good = [p for p in NAMES if (l, p) in COMPAT][0]
@@ -106,12 +111,17 @@ def model_cases(case_lines):
         if sp[1] != "sock":
             mc.append(line)
             continue
+        if sp[0].startswith("u"):
+            mc.append(line)
+            continue
         raw = [t for t in sp if t.startswith("raw=")][0][4:]
         mc.append("%s admit %s %s" % (sp[0], sp[2], raw))
     return mc
 
 
 def norm_impl(o):
+    if " att:b=" in o:
+        return o
     if o.startswith("att:a="):
         return o.split()[0][6:]
     return o
@@ -156,6 +166,12 @@ def judge(line, impl_obs, orc):
         return None if impl_obs == want else "socket type name %r -> %s" % (name, impl_obs)
     local = sp[2]
     toks = impl_obs.split()
+    if sp[0].startswith("u"):
+        keep = "r" if local == "PUSH" else "-"
+        want = ["att:a=ok:auto", "att:b=ok:auto", "dropped:a=" + keep, "dropped:b=" + keep]
+        if toks != want:
+            return "two peers announcing an empty Identity must both be registered, each under a fresh unique identity: " + impl_obs[:120]
+        return None
     verdict = toks[0][6:] if toks and toks[0].startswith("att:a=") else "?"
     if sp[0].startswith("g") and "_" in sp[0]:
         # reference reading of the property text: admitted iff signature ok, version >= 3.0, known mechanism,
